@@ -25,7 +25,12 @@ RULE = (
     "repository has no dependency cycle), the resolver must "
     "succeed and its final state must hold that version for every target, as the installed instance when the installed "
     "tree has that version. (M) min-install: when every target is matched by an installed package the resolver must "
-    "succeed, keep an installed match and merge nothing matching a target. (D) every input resolved twice in one process "
+    "succeed, keep an installed match and merge nothing matching a target. A target whose highest version is held by no "
+    "valid final state at all is required at its highest lower version that a witness holds (without obligation for it), so "
+    "the other targets of the list keep their obligations. Multi-target lists are also run through pmerge's failure loop on "
+    "ONE resolver (drop the failed target, reset(), resolve the rest): when a target was dropped the op list must equal "
+    "that of a fresh resolver given the remaining targets and (U)/(M) apply to them; families F7/F8 also use one add_atom "
+    "call per target. (D) every input resolved twice in one process "
     "gives the same op list; a fixed slice is also resolved in sub-processes under PYTHONHASHSEED 0,1,2 and the op lists "
     "compared. A class is (clause, resolver kind, outcome shape / premise outcome)."
 )
@@ -42,7 +47,9 @@ ASSUMPTIONS = c15.ASSUMPTIONS[:3] + [
     "the brute force is complete over the universe (at most 96 final states), so no doubled-universe re-check is needed",
 ]
 BOUNDS = {
-    "quick": c15.BOUNDS["quick"] + " -- restricted to universes where x-2 carries at most one class; 5 resolver kinds; "
+    "quick": c15.BOUNDS["quick"] + " -- restricted to universes where x-2 carries at most one class (F2: y-2 in DEPEND/RDEPEND/PDEPEND only), plus F7 "
+    "(dependency cycle entered through a dependency of z-1) and F8 (x-2 passing an earlier class and failing a later one); "
+    "multi-target lists also through the retry flow (F7/F8 also one add_atom per target); 5 resolver kinds; "
     "hash-seed slice: every 40th universe under 3 seeds",
     "thorough": c15.BOUNDS["thorough"] + " -- restricted to F1, F4, F2 with dependency-free x-1, F3 with x-1 and x-2 using the "
     "same class; hash-seed slice: every 25th universe under 3 seeds",
@@ -58,9 +65,9 @@ SEED_STRIDE = {"quick": 40, "thorough": 25}
 # ------------------------------------------------------------------ brute-force premise
 
 
-def all_finals(uni):
-    """Every final state reachable by keeping each installed package or replacing it in its slot, and adding source
-    packages to empty (name, slot) positions."""
+def all_finals(uni, drop_installed=False):
+    """Every final state reachable by keeping each installed package or replacing it in its slot (or, with
+    drop_installed, removing it), and adding source packages to empty (name, slot) positions."""
     pos = {}
     for n, v, s, _ in uni["inst"]:
         pos.setdefault((n, s), []).append((n, v, s, "inst"))
@@ -74,7 +81,7 @@ def all_finals(uni):
     choices = []
     for k in keys:
         c = list(pos[k])
-        if k not in installed_pos:
+        if k not in installed_pos or drop_installed:
             c = [None] + c
         choices.append(c)
     for combo in itertools.product(*choices):
@@ -115,13 +122,15 @@ def acyclic(edges):
 
 
 def witnesses(uni):
-    """List of conservative witness final states of the universe (independent of targets)."""
+    """-> (conservative witness final states, liberal ones).  Conservative: see ASSUMPTIONS.  Liberal: every final state
+    (installed packages may also be dropped) that C15's validator accepts -- a version held by no liberal state cannot be
+    part of any valid plan at all."""
     deps_of = {}
     for n, v, s, d in uni["src"]:
         deps_of[(n, v, s, "src")] = d
     for n, v, s, d in uni["inst"]:
         deps_of[(n, v, s, "inst")] = d
-    out = []
+    cons = []
     for final in all_finals(uni):
         # judge every package of the state (installed ones too): present them all to the validator as 'merged'
         as_merged = {(q[0], q[1], q[2], "src") for q in final}
@@ -137,8 +146,17 @@ def witnesses(uni):
             continue
         if not acyclic(dep_edges(final, deps_of)):
             continue
-        out.append(final)
-    return out
+        cons.append(final)
+    return {"cons": cons, "uni": uni}
+
+
+def liberal(wit):
+    """Computed on demand (only needed when a target's highest version sits in no conservative witness)."""
+    if "lib" not in wit:
+        uni = wit["uni"]
+        src_deps = {(n, v, s): d for n, v, s, d in uni["src"]}
+        wit["lib"] = [{(q[0], q[1]) for q in f} for f in all_finals(uni, drop_installed=True) if not c15.validate(f, [], src_deps)[0]]
+    return wit["lib"]
 
 
 def blocker_hits_initial(final, uni, deps_of):
@@ -185,36 +203,90 @@ def source_cyclic(uni):
 
 
 def premise_upgrade(uni, targets, wit):
+    """-> list of (target, (name, version)) obligations, or None when the input carries none.
+    For every target: its highest matching version h is required when some conservative witness holds it; when no final
+    state at all (liberal) holds h, no valid plan can contain it and the highest lower matching version that a conservative
+    witness holds is required instead (without obligation); anything in between is left alone.  All required versions must
+    sit together in one conservative witness; obligations are the targets whose required version is the highest one."""
     if source_cyclic(uni):
         return None
-    want = []
+    chave = [{(q[0], q[1]) for q in w} for w in wit["cons"]]
+    req, oblig = [], []
     for t in targets:
-        h = highest_for(uni, t)
-        if h is None:
+        a = c15.parse_atom(t)
+        cands = sorted({(v, n) for n, v, s, _ in uni["src"] + uni["inst"] if c15.ref_match(a, (n, v, s))}, reverse=True)
+        if not cands:
             return None
-        want.append((t, h))
-    for final in wit:
-        have = {(q[0], q[1]) for q in final}
-        if all(h in have for _, h in want):
-            return want
-    return None
+        h = (cands[0][1], cands[0][0])
+        if any(h in w for w in chave):
+            req.append(h)
+            oblig.append((t, h))
+            continue
+        if any(h in w for w in liberal(wit)):
+            return None
+        for v, n in cands[1:]:
+            if any((n, v) in w for w in chave):
+                req.append((n, v))
+                break
+            if any((n, v) in w for w in liberal(wit)):
+                return None
+        else:
+            return None
+    if not oblig or not any(all(r in w for r in req) for w in chave):
+        return None
+    return oblig
+
+
+def good_witnesses(uni, targets, wit):
+    """The conservative witnesses that hold every version premise_upgrade requires (recomputed for the classifier)."""
+    cons = wit["cons"]
+    req = []
+    for t in targets:
+        a = c15.parse_atom(t)
+        cands = sorted({(v, n) for n, v, s, _ in uni["src"] + uni["inst"] if c15.ref_match(a, (n, v, s))}, reverse=True)
+        for v, n in cands:
+            if any((n, v) in {(q[0], q[1]) for q in w} for w in cons):
+                req.append((n, v))
+                break
+    return [w for w in cons if all(r in {(q[0], q[1]) for q in w} for r in req)]
 
 
 # ------------------------------------------------------------------ the single checking function
 
 
-def check_case(uni, targets, kind, wit=None):
-    """-> (messages, info)"""
-    r1 = c15.resolve(uni, targets, kind)
-    r2 = c15.resolve(uni, targets, kind)
+def check_case(uni, targets, kind, wit=None, flow="atoms"):
+    """-> (messages, info).  flow 'atoms': one add_atoms call, judged by (U)/(M)/(D).  flow 'seq': one add_atom call per
+    target through the same resolver, judged the same way.  flow 'retry': pmerge's failure loop (drop the failed target,
+    reset() the same resolver, resolve the rest); judged only when a target was dropped: the op list must equal that of a
+    fresh resolver given the remaining targets (identical input after reset), and (U)/(M) apply to the remaining targets."""
+    r1 = c15.resolve(uni, targets, kind, flow=flow)
     info = {"outcome": r1["outcome"], "ops": r1["ops"], "premise": "-", "tags": []}
     msgs = []
-    if (r1["outcome"], r1["ops"], r1["exc"]) != (r2["outcome"], r2["ops"], r2["exc"]):
-        info["tags"].append("nondeterministic")
-        msgs.append(
-            f"{kind} resolver, targets {' '.join(targets)}: two resolutions of the same input differ: "
-            f"{r1['outcome']} {r1['ops']} vs {r2['outcome']} {r2['ops']}"
-        )
+    if flow == "retry":
+        left = r1.get("resolved", list(targets))
+        if r1["outcome"] == "crash" or left == list(targets) or not left:
+            info["premise"] = "retry-nothing-dropped" if left == list(targets) else "retry-nothing-left"
+            info["outcome"] = "skip"
+            return msgs, info
+        r2 = c15.resolve(uni, left, kind)
+        if (r1["outcome"], r1["ops"]) != (r2["outcome"], r2["ops"]):
+            info["tags"].append("retry-differs-from-fresh")
+            info["warm"] = [r1["outcome"], r1["ops"]]
+            info["fresh"] = [r2["outcome"], r2["ops"]]
+            info["left"] = list(left)
+            msgs.append(
+                f"{kind} resolver, targets {' '.join(targets)}: after dropping the failed target(s) and reset(), resolving "
+                f"{' '.join(left)} gives {r1['outcome']} {r1['ops']} but a fresh resolver gives {r2['outcome']} {r2['ops']}"
+            )
+        targets = left
+    else:
+        r2 = c15.resolve(uni, targets, kind, flow=flow)
+        if (r1["outcome"], r1["ops"], r1["exc"]) != (r2["outcome"], r2["ops"], r2["exc"]):
+            info["tags"].append("nondeterministic")
+            msgs.append(
+                f"{kind} resolver, targets {' '.join(targets)}: two resolutions of the same input differ: "
+                f"{r1['outcome']} {r1['ops']} vs {r2['outcome']} {r2['ops']}"
+            )
     crashed = r1["outcome"] == "crash"
     how = f"raised in stage {r1['stage']} ({r1['exc']})" if crashed else "failed"
     final = None
@@ -279,6 +351,26 @@ def check_case(uni, targets, kind, wit=None):
 
 
 _fam = {}
+SEQ_FAMILIES = ("F7", "F8")
+BUILD2 = ("DEPEND", "RDEPEND")
+
+
+def history_families():
+    """Universes in which what a resolver did for an earlier target can leak into a later one.
+    F7: a two-package dependency cycle x-2 <-> y-2 that z-1 enters through its own dependency (with all-DEPEND edges the
+    cycle is unresolvable and z fails, while x or y asked for directly resolve).
+    F8: x-2 resolves an earlier dependency class and fails a later one on a missing package; x-1 is the dependency-free fallback."""
+    out = []
+    for cz in BUILD2:
+        for cx in BUILD2:
+            for mx in (">=a/y-2", "a/y"):
+                for cy in BUILD2:
+                    for my in (">=a/x-2", "a/x"):
+                        out.append(("F7", {}, {cx: mx}, {cy: my}, "0", {cz: ">=a/x-2"}, "q", False, [["a/z", "a/x"], ["a/z", "a/y"]]))
+    for c1, c2 in (("DEPEND", "RDEPEND"), ("BDEPEND", "IDEPEND"), ("RDEPEND", "PDEPEND"), ("DEPEND", "PDEPEND")):
+        for m in ("<a/y-2", "=a/y-1", "a/y", ">=a/y-2"):
+            out.append(("F8", {}, {c1: m, c2: "a/w"}, {}, "0", {}, "q", False, [["a/x", "a/y"], ["a/y", "a/x"]]))
+    return out
 
 
 def family(tier):
@@ -287,10 +379,10 @@ def family(tier):
     if tier not in _fam:
         f = c15.family(tier)
         if tier == "quick":
-            f = [e for e in f if len(e[2]) <= 1]
+            f = [e for e in f if (len(e[2]) <= 1 or e[0] in ("F5", "F6")) and not (e[0] == "F2" and set(e[3]) - set(c15.X3))]
         else:
-            f = [e for e in f if e[0] in ("F1", "F4") or (e[0] == "F2" and not e[1]) or (e[0] == "F3" and list(e[1]) == list(e[2]))]
-        _fam[tier] = f
+            f = [e for e in f if e[0] in ("F1", "F4", "F5", "F6") or (e[0] == "F2" and not e[1]) or (e[0] == "F3" and list(e[1]) == list(e[2]))]
+        _fam[tier] = f + history_families()
     return _fam[tier]
 
 
@@ -363,18 +455,31 @@ def work(task):
     classes = {}
     viol = []
     samples = []
-    for fname, uni, _t, _k in c15.cases_of(tier, lo, hi, family(tier)):
+    for fname, uni, tlists, _k in c15.cases_of(tier, lo, hi, family(tier)):
         wit = witnesses(uni)
-        for t in targets:
+        for t in tlists:
+            flows = ["atoms"] if len(t) < 2 else (["atoms", "retry", "seq"] if fname in SEQ_FAMILIES else ["atoms", "retry"])
             for k in kinds:
-                evals += 1
-                msgs, info = check_case(uni, t, k, wit)
-                key = f"{k}|{info['premise']}|{c15.shape(info)}" + ("|BAD" if msgs else "")
-                classes[key] = classes.get(key, 0) + 1
-                if msgs:
-                    viol.append({"what": "policy", "tags": info["tags"], "uni": c15.slim(uni), "targets": list(t), "kind": k, "msg": msgs[0]})
-                elif not samples and info["premise"] == "U-resolvable" and len(info["ops"]) > 1:
-                    samples.append({"universe": c15.slim(uni), "targets": t, "kind": k, "ops": info["ops"]})
+                for flow in flows:
+                    msgs, info = check_case(uni, t, k, wit, flow)
+                    if info["outcome"] == "skip":
+                        continue
+                    evals += 1
+                    if flow == "atoms":
+                        key = f"{k}|{info['premise']}|{c15.shape(info)}" + ("|BAD" if msgs else "")
+                    else:
+                        key = f"flow-{flow}|{info['premise']}|{info['outcome']}" + ("|BAD" if msgs else "")
+                    classes[key] = classes.get(key, 0) + 1
+                    if msgs:
+                        c = {"what": "policy", "tags": info["tags"], "uni": c15.slim(uni), "targets": list(t), "kind": k, "msg": msgs[0]}
+                        if flow != "atoms":
+                            c["flow"] = flow
+                        for extra in ("warm", "fresh", "left"):
+                            if extra in info:
+                                c[extra] = info[extra]
+                        viol.append(c)
+                    elif not samples and info["premise"] == "U-resolvable" and len(info["ops"]) > 1:
+                        samples.append({"universe": c15.slim(uni), "targets": t, "kind": k, "ops": info["ops"]})
     viol.sort(key=lambda c: len(json.dumps(c)))
     return {"evals": evals, "classes": classes, "viol": viol, "samples": samples}
 
@@ -405,7 +510,7 @@ def work_seeds(task):
 def replay(case):
     if case["what"] == "seeds":
         return check_seeds_case(case["uni"], case["targets"], case["kind"])
-    msgs, _ = check_case(case["uni"], case["targets"], case["kind"])
+    msgs, _ = check_case(case["uni"], case["targets"], case["kind"], flow=case.get("flow", "atoms"))
     return msgs
 
 
@@ -422,8 +527,7 @@ def _k_needs_lower_dependency(case):
     want = premise_upgrade(uni, targets, wit)
     if not want:
         return False
-    wanted = {h for _, h in want}
-    good = [w for w in wit if wanted <= {(q[0], q[1]) for q in w}]
+    good = good_witnesses(uni, targets, wit)
     if not good:
         return False
     tops = {}
@@ -458,7 +562,31 @@ def _k_construct_typeerror(case):
     return bool(tags) and set(tags) <= {"U-crashed", "M-crashed"} and "stage construct" in m and "TypeError" in m and "MutableContainmentRestriction" in m
 
 
+def _k_warm_cache_finds_more(case):
+    """After reset() the same resolver finds a plan that is at least as good as the fresh resolver's for every remaining
+    target, in a universe with a dependency cycle: inside a cycle the nested lookup of an atom shares the partially consumed
+    cached iterator of the outer lookup (caching_repo / caching_iter), so a cold resolver sees 'no matches' / runs out of
+    candidates where a warm one does not."""
+    if case.get("tags") != ["retry-differs-from-fresh"] or "warm" not in case or not source_cyclic(case["uni"]):
+        return False
+    (wo, wops), (fo, fops) = case["warm"], case["fresh"]
+    if wo != "ok":
+        return False
+    if fo != "ok":
+        return True
+    wf, _ = c15.final_state(case["uni"], wops)
+    ff, _ = c15.final_state(case["uni"], fops)
+    for t in case["left"]:
+        a = c15.parse_atom(t)
+        wv = max([q[1] for q in wf if c15.ref_match(a, q)], default=-1)
+        fv = max([q[1] for q in ff if c15.ref_match(a, q)], default=-1)
+        if wv < fv:
+            return False
+    return True
+
+
 CLASSIFIERS = {
+    "warm-resolver-finds-more-inside-cycles": _k_warm_cache_finds_more,
     "upgrade-no-retry-of-dependency-version": _k_needs_lower_dependency,
     "resolver-construction-unhashable-filter": _k_construct_typeerror,
 }
